@@ -28,7 +28,10 @@ Also decided (necessary conditions found clause by clause):
   R09.b  best_match(table, default): the default is None or a plain-text type of the table; the charset of the Content-Type is
          self.charset; the format table is never modified (stores, mutating methods, global re-binding, in any module that sees it);
          an adapt() of a subclass defers to the inherited one or obeys the same pairing rule; every render_error of the ErrorHandler
-         family negotiates like the base one;
+         family negotiates like the base one; the way an error takes to those renderers: every value a route's execute_error()
+         returns is the result of running its render_error (never the error it was given, never nothing -- anything else is an
+         exception), and where the application calls execute_error() a handler catching Exception answers, on every normal path,
+         with the default renderer; the response returned is one of those two results;
   R09.c  to_html / to_xml are the methods each class of the family *resolves* to (mixins outside the family included); a
          to_escaped_dict() of a subclass obeys the same rule (or extends the inherited mapping with escaped values); placeholders of
          the constant templates never stand in a tag outside quotes; the folded template of to_xml, placeholders replaced by text,
@@ -1499,7 +1502,8 @@ def run(rep):
                       'constructor); handler slots and uncaught_to_response carry the status of their situation; constructors of error types hand on '
                       'and keep what they are given; class-level defaults are never written')
     rep.rule('R09.b', 'MIME_SUPPORT_MAP exhaustiveness and constancy; one (format, mimetype) pair feeds body and header (charset = self.charset), also in '
-                      'overrides; negotiation over the table with a plain-text / None default in every render_error')
+                      'overrides; negotiation over the table with a plain-text / None default in every render_error; execute_error returns only rendered '
+                      'results, any Exception from it is answered by the default renderer')
     rep.rule('R09.c', 'taint: instance fields reach HTML/XML templates only through html_escape(x, True), in the serialisers each class resolves to; '
                       'placeholders stay out of unquoted attribute position; the XML template is one well-formed element')
     rep.rule('R09.d', 'every reference of the shipped debug templates is escaped')
@@ -1767,6 +1771,158 @@ def renderer_adapts_negotiated(repo, err, mod_, fi, ename):
         if not ccfg.must_pass(ccfg.nodes_of(stmt_of(caller.mod, c)), ccfg.entry, ccfg.exit, normal_only=True):
             return False
     return True
+
+
+ROUTE_MOD = 'clastic.route'
+ERROR_PARAM = '_error'            # the keyword dispatch hands the error under
+ROUTE_RENDERER = 'render_error'   # the attribute of a bound route that holds its renderer
+
+
+def _route_error_executors(repo):
+    """The execute_error() of BoundRoute and of every class of the tree that derives from it and defines its own."""
+    route = repo.mod(ROUTE_MOD)
+    first = route.func('BoundRoute.execute_error')
+    out = [first]
+    br = first.cls if isinstance(first.cls, ClassInfo) else None
+    if br is not None:
+        for c in repo.subclasses(br):
+            m = c.methods.get('execute_error')
+            if m is not None and not any(m is x for x in out):
+                out.append(m)
+    return out
+
+
+def check_error_executor(rep, repo, ex, renderers):
+    """What a route's execute_error() hands back to dispatch is what its renderer made of the error: every ``return`` yields the
+    result of a call that runs ``self.render_error`` (handed to inject(...) / called in place / a local naming it) -- or of a
+    renderer that negotiates itself; the function does not end without a ``return``.  Whatever else happens must be an
+    exception: that is what sends dispatch to the default renderer.  A path that hands back the error it was given (or
+    nothing) delivers a response nobody negotiated: body and Content-Type stay the plain text of the constructor."""
+    ps = ex.params()
+    if len(ps) < 2 or ERROR_PARAM not in ps:
+        raise AnalysisError('%s: the %s parameter was not found' % (ex.qualname, ERROR_PARAM))
+    me = ps[0]
+    renderer = '%s.%s' % (me, ROUTE_RENDERER)
+    if _name_stores(ex, me):
+        raise AnalysisError('%s re-binds %s: not followed' % (ex.qualname, me))
+    rets = returns_of(ex)
+
+    def origin(e, use, depth=0):
+        """('ok' | 'bad' | 'unknown', text): is the value the result of running the renderer?  A local bound several times is
+        what each of its bindings makes it."""
+        e = expand_expr(ex, e, use)
+        if isinstance(e, ast.Call):
+            parts = [e.func] + [a.value if isinstance(a, ast.Starred) else a for a in e.args] + [k.value for k in e.keywords]
+            if any(norm(x) == renderer for x in parts):
+                return 'ok', None
+            if isinstance(e.func, ast.Name) and not (e.func.id in _param_names(ex) or _name_stores(ex, e.func.id)):
+                k, m_, obj = repo.resolve(ex.mod, e.func.id)
+                if k == 'func' and any(obj is fi_ for mod__, fi_ in renderers):
+                    return 'ok', None
+            return 'unknown', short(e, 50)
+        if isinstance(e, ast.Name) and e.id in _param_names(ex):
+            return 'bad', 'its own argument %s' % e.id
+        if isinstance(e, ast.Name) and depth < 3:
+            verdicts = []
+            for n in _name_stores(ex, e.id):
+                st = stmt_of(ex.mod, n) if isinstance(n, ast.Name) else None
+                if isinstance(st, ast.Assign) and len(st.targets) == 1 and st.targets[0] is n:
+                    verdicts.append(origin(st.value, st, depth + 1))
+                else:
+                    verdicts.append(('unknown', e.id))
+            for want in ('bad', 'unknown'):
+                hit = [v for v in verdicts if v[0] == want]
+                if hit:
+                    return hit[0]
+            return ('ok', None) if verdicts else ('unknown', e.id)
+        if isinstance(e, (ast.Constant, ast.Attribute, ast.Subscript, ast.Dict, ast.List, ast.Tuple)) and depth == 0:
+            return 'bad', short(e, 40)
+        return 'unknown', short(e, 50)      # (one binding of several, e.g. an initial None: which one reaches the return is not followed)
+    bad, unknown = [], []
+    for r in rets:
+        if r.value is None:
+            bad.append((r, 'nothing'))
+            continue
+        verdict, text = origin(r.value, r)
+        if verdict == 'bad':
+            bad.append((r, text))
+        elif verdict == 'unknown':
+            unknown.append((r, text))
+    if not bad and _falls_off(ex):
+        bad.append((ex.node, 'nothing (a path ends without a return)'))
+    if not bad and unknown:
+        raise AnalysisError('%s: cannot tell whether %s is the result of running %s' % (ex.qualname, unknown[0][1], renderer))
+    ok = bool(rets) and not bad and not _self_attr_stores(ex, ROUTE_RENDERER)
+    rep.check('R09.b', fkey(ex, 'hands back what the renderer returns'), ok,
+              'every value %s returns is the result of running the route\'s %s; anything else is an exception' % (ex.name, ROUTE_RENDERER) if ok else
+              '%s returns %s without running the route\'s %s: dispatch takes it for the rendered response, the default renderer is '
+              'never reached and nobody negotiates the format (the client gets the constructor\'s text/plain whatever it accepts)' %
+              (ex.qualname, bad[0][1] if bad else 'a value', ROUTE_RENDERER), ex.mod, bad[0][0] if bad else ex.node)
+
+
+def check_error_fallback(rep, repo, app, renderers):
+    """Where the application asks the route of an error to render it (``<route>.execute_error(...)``): the call stands in a ``try``
+    whose handler catches Exception -- a route without a renderer, a renderer that fails, an injection that fails all arrive as
+    one --, every normal path through that handler replaces the outcome by the result of a negotiating renderer
+    (default_render_error), and the value the function then returns is the one of those two, not re-bound in between."""
+    sites = []
+    for fi in app.functions.values():
+        for c in walk_body(fi.node):
+            if isinstance(c, ast.Call) and isinstance(c.func, ast.Attribute) and c.func.attr == 'execute_error':
+                sites.append((fi, c))
+    if not sites:
+        raise AnalysisError('clastic.application: the call <route>.execute_error(...) that renders an error was not found')
+
+    def outcome(fi, st, call):
+        """('return', None) / ('bind', name) when the statement returns / names the result of the call, else None"""
+        if isinstance(st, ast.Return) and st.value is call:
+            return ('return', None)
+        if isinstance(st, ast.Assign) and st.value is call and len(st.targets) == 1 and isinstance(st.targets[0], ast.Name):
+            return ('bind', st.targets[0].id)
+        return None
+
+    def is_fallback(fi, e):
+        if not (isinstance(e, ast.Call) and isinstance(e.func, ast.Name)) or e.func.id in _param_names(fi) or _name_stores(fi, e.func.id):
+            return False
+        k, m_, obj = repo.resolve(fi.mod, e.func.id)
+        return k == 'func' and any(obj is fi_ for mod__, fi_ in renderers)
+    for fi, call in sites:
+        st = stmt_of(fi.mod, call)
+        out = outcome(fi, st, call)
+        if out is None:
+            raise AnalysisError('%s: what becomes of the result of %s cannot be followed' % (fi.qualname, short(call, 40)))
+        cfg = cfg_of(fi)
+        h = protected_by(fi, call, 'Exception')
+        why = None
+        if h is None:
+            why = 'the call %s is not under a handler that catches Exception: a route without a renderer / a failing renderer is not ' \
+                  'answered by the default renderer' % short(call, 50)
+        else:
+            fb = []
+            for s_ in [x for b in h.body for x in ast.walk(b) if isinstance(x, ast.stmt)]:
+                v = s_.value if isinstance(s_, (ast.Return, ast.Assign)) else None
+                if v is not None and is_fallback(fi, v) and (isinstance(s_, ast.Return) or outcome(fi, s_, v) == out):
+                    fb.append(s_)
+            hn = cfg.handler_nodes(h)
+            if not hn:
+                raise AnalysisError('%s: the handler around %s is not in the control-flow graph' % (fi.qualname, short(call, 40)))
+            if not fb or not cfg.must_pass(cfg.nodes_of_all(fb), hn, cfg.exit, normal_only=True):
+                why = 'when %s raises, the handler does not always answer with the default renderer: the error goes out as it was ' \
+                      'constructed (text/plain), whatever the client accepts' % short(call, 50)
+            elif out[0] == 'bind':
+                # the name holds one of the two results when the function returns it
+                src = cfg.nodes_of(st) + cfg.nodes_of_all(fb)
+                rn = [n for r in returns_of(fi) for n in cfg.nodes_of(r)]
+                after = [m for x in src for m in cfg.succ[x]]
+                reached = cfg.reach(after, avoid=src)
+                mid = (reached & cfg.coreach(rn, avoid=src)) - set(rn)
+                late = [r for r in returns_of(fi) if set(cfg.nodes_of(r)) & reached]
+                if cfg._kills(ast.Name(id=out[1], ctx=ast.Load()), mid) or \
+                        any(not (isinstance(r.value, ast.Name) and r.value.id == out[1]) for r in late if not is_fallback(fi, r.value)):
+                    why = 'the rendered response held in %s is not what %s returns afterwards' % (out[1], fi.qualname)
+        ok = why is None
+        rep.check('R09.b', fkey(fi, 'a failing route renderer falls back to the default renderer'), ok,
+                  'the result of execute_error(...) or, on any Exception, of default_render_error(...) is the response' if ok else why, fi.mod, call)
 
 
 def check_adapt_override(rep, repo, err, base, msm, m):
@@ -2086,6 +2242,10 @@ def rule_b(rep, repo, err, app, base):
         ok = renderer_adapts_negotiated(repo, err, mod_, fi, '_error')
         rep.check('R09.b', fkey(fi), bool(ok), 'negotiates over MIME_SUPPORT_MAP, adapts the error to the winner and returns it' if ok else
                   '%s does not negotiate over MIME_SUPPORT_MAP / adapt / return the same error' % fi.qualname, mod_, fi.node)
+    # the way an error takes to those renderers: the route's own one, else -- on any exception -- the default one
+    for ex in _guarded(rep, _route_error_executors, repo) or []:
+        _guarded(rep, check_error_executor, rep, repo, ex, renderers)
+    _guarded(rep, check_error_fallback, rep, repo, app, renderers)
     k, m_, obj = repo.resolve(app, TABLE)
     if k == 'unknown':
         # application.py no longer names the table itself (the negotiation moved into the errors module): the
@@ -2094,7 +2254,7 @@ def rule_b(rep, repo, err, app, base):
     else:
         rep.check('R09.b', 'clastic.application::MIME_SUPPORT_MAP', m_ is err, 'default_render_error uses the errors module\'s table' if m_ is err else
                   'application.py uses a different MIME_SUPPORT_MAP', app)
-    rep.floor('R09.b', 10)
+    rep.floor('R09.b', 12)
 
 
 def rule_c(rep, repo, err, base, fam):
